@@ -68,6 +68,8 @@ MCInit == \/ \E s \in Strs : InitWith([op |-> "pct", in |-> s])
           \/ \E p \in {"connect", "grpc", "grpcweb"} : InitWith([op |-> "recvfail_live", proto |-> p])
           \* C01: messages with sub-messages, repeated and map fields
           \/ \E p \in {"connect", "grpc", "grpcweb"}, u \in {"plain", "gzip"} : InitWith([op |-> "nested_e2e", proto |-> p, used |-> u])
+          \* C12: the Spec of streaming calls
+          \/ \E p \in {"connect", "grpc", "grpcweb"}, k \in {"client", "server", "bidi"} : InitWith([op |-> "spec_kinds", proto |-> p, used |-> k])
           \* C13: receiving while a Send on the same stream is blocked
           \/ \E p \in {"connect", "grpc", "grpcweb"} : InitWith([op |-> "recv_while_send", proto |-> p])
           \* C11: error metadata when the error payload exceeds the client's read limit
